@@ -52,6 +52,8 @@ let handle mode op args =
   | "ps", [wp; lim; bi; a] ->
       out_bytes (dump_parse_schema d (str_of_hex wp = "1") (n_of_int (int_of_string (str_of_hex lim)))
                    (str_of_hex bi = "1") (bytes_of_hex a))
+  | "pss", wp :: lim :: srcs ->
+      out_bytes (dump_parse_schemas d (str_of_hex wp = "1") (n_of_int (int_of_string (str_of_hex lim))) (List.map bytes_of_hex srcs))
   | "json", [a] -> out_bytes (dump_json_roundtrip d (bytes_of_hex a))
   | "fq", [fl; ind; a] -> out_bytes (dump_format_query d (mk_fopts (bytes_of_hex fl) (bytes_of_hex ind)) (bytes_of_hex a))
   | "fs", [fl; ind; bi; a] ->
